@@ -10,8 +10,9 @@
 (*  "D09" a choice branch is not optional                                   *)
 (*  "D10" `return` on a nested sequence drops the particles that follow it  *)
 (*  "D11" only the immediate parent's occurrence is inspected               *)
-(*  "D12" attributes declared in an extension are dropped, and so is the    *)
-(*        whole own content of an extension that has no sequence            *)
+(*  "D12" the attributes of an extension that has no sequence are dropped    *)
+(*  "D14" a struct declares only its own namespace: the prefix of a member  *)
+(*        that belongs to another namespace is unbound                      *)
 (*  "D13" attribute fields carry the element prefix                         *)
 (*  "D23a" look-up of an extension base is blind to the component kind: a   *)
 (*        global element of the same name that comes first is taken and     *)
@@ -90,11 +91,15 @@ BuiltFields(S, f, it, body, fuel, D) ==
            inherited == IF b = None THEN <<>>     \* (the component is dropped; see Dropped)
                         ELSE IF b.k # "complex" THEN <<>>
                         ELSE BuiltFields(S, FileNamed(S, b.f), b.it, b.it, fuel - 1, D)
-           own == IF "D12" \in D
-                  THEN (IF body.content = <<>> THEN <<>> ELSE TopWalk(S, f, it, body.content, D))
+           own == IF "D12" \in D /\ body.content = <<>>
+                  THEN <<>>      \* the extension's children are only visited when one of them is a sequence
                   ELSE TopWalk(S, f, it, body.content, D) \o Attrs(S, f, it, body.attrs, D)
        IN inherited \o own
   ELSE TopWalk(S, f, it, body.content, D) \o Attrs(S, f, it, body.attrs, D)
+
+\* the namespace a field's prefix is bound to on the struct generated for a component of namespace own
+BindNs(fs, own, D) == [i \in 1..Len(fs) |-> IF "D14" \in D /\ fs[i].ns \notin {own, "unqualified", "?"}
+                                           THEN [fs[i] EXCEPT !.ns = "unbound"] ELSE fs[i]]
 
 \* a component whose conversion fails is dropped silently by read_xsd (`if let Ok(..)`)
 RECURSIVE HasDangling(_)
